@@ -32,12 +32,25 @@
 (*   "sm"  (parked at "length") memoise the count of shard s               *)
 (* cache = the child shards (table indices) present in their parent's      *)
 (* cache, memo = the shards whose count is memoised.                       *)
+(* M = the block classes that cannot be loaded: the load is attempted (and *)
+(* seen by the store), nothing is cached, and the operation fails the way  *)
+(* its kind does - a lookup answers with the error, an iteration counts    *)
+(* one error and goes on behind the child, a count is abandoned (Length()  *)
+(* then reports 0) and memoises nothing.                                   *)
+(*                                                                         *)
+(* A third parking point needs no hook in the library: the harness owns    *)
+(* the block store, so it can park a reader INSIDE a load ("load": the     *)
+(* reader has asked for the block and not got it yet; frame "ld").  For    *)
+(* the library as it stands a load touches no shared state and this only   *)
+(* refines the schedules; it is what exposes shared state a change might   *)
+(* put around the load (a singleflight table, say).  Load gates are on     *)
+(* when the pseudo-class 0 is in M.                                        *)
 (***************************************************************************)
 EXTENDS Integers, Sequences, FiniteSets
 LOCAL INSTANCE HamtOps
 
 Fr(f, s, k, d) == [f |-> f, s |-> s, k |-> k, d |-> d]
-NoAcc == [res |-> "none", link |-> 0, pairs |-> <<>>]
+NoAcc == [res |-> "none", link |-> 0, pairs |-> <<>>, errs |-> 0]
 
 \* the program of an operation: op = [o |-> "lookup", n |-> name id] | [o |-> "iterate", n |-> 0] | [o |-> "length", n |-> 0]
 StackOf(op) == CASE op.o = "lookup" -> <<Fr("lk", 1, op.n, 0)>>
@@ -46,49 +59,59 @@ StackOf(op) == CASE op.o = "lookup" -> <<Fr("lk", 1, op.n, 0)>>
 
 \* one segment: run the reader whose stack is stk until it parks or ends
 \* result: the new stack, shared state, the blocks loaded (classes, in order), the accumulated answer, where it stopped
-RECURSIVE Run(_, _, _, _, _, _, _)
+RECURSIVE Run(_, _, _, _, _, _, _, _)
 Park(stk, cache, memo, loads, acc, at) == [stk |-> stk, cache |-> cache, memo |-> memo, loads |-> loads, acc |-> acc, at |-> at]
 \* loadChild(c): a hit goes on with `cont`; a miss loads the block and parks before the store
-LoadChild(S, DG, c, cont, rest, cache, memo, loads, acc) ==
-  IF c \in cache THEN Run(S, DG, <<cont>> \o rest, cache, memo, loads, acc)
+LoadGates(M) == 0 \in M
+\* the load itself: the block arrives (park before the store) or the load fails
+DoLoad(S, DG, M, c, cont, rest, cache, memo, loads, acc) ==
+  IF S[c].c \in M
+  THEN CASE cont.f = "lk" -> Run(S, DG, M, <<>>, cache, memo, Append(loads, S[c].c), [acc EXCEPT !.res = "err"])
+         [] cont.f = "it" -> Run(S, DG, M, rest, cache, memo, Append(loads, S[c].c), [acc EXCEPT !.errs = @ + 1])
+         [] cont.f = "ln" -> Run(S, DG, M, <<>>, cache, memo, Append(loads, S[c].c), [acc EXCEPT !.res = "lenerr"])
   ELSE Park(<<Fr("st", c, 0, 0), cont>> \o rest, cache, memo, Append(loads, S[c].c), acc, "loadChild")
-Run(S, DG, stk, cache, memo, loads, acc) ==
+LoadChild(S, DG, M, c, cont, rest, cache, memo, loads, acc) ==
+  IF c \in cache THEN Run(S, DG, M, <<cont>> \o rest, cache, memo, loads, acc)
+  ELSE IF LoadGates(M) THEN Park(<<Fr("ld", c, 0, 0), cont>> \o rest, cache, memo, loads, acc, "load")
+       ELSE DoLoad(S, DG, M, c, cont, rest, cache, memo, loads, acc)
+Run(S, DG, M, stk, cache, memo, loads, acc) ==
   IF stk = <<>> THEN Park(stk, cache, memo, loads, acc, "done")
   ELSE LET fr == Head(stk)
            rest == Tail(stk) IN
-    CASE fr.f = "st" -> Run(S, DG, rest, cache \cup {fr.s}, memo, loads, acc)
-      [] fr.f = "sm" -> Run(S, DG, rest, cache, memo \cup {fr.s}, loads, acc)
+    CASE fr.f = "st" -> Run(S, DG, M, rest, cache \cup {fr.s}, memo, loads, acc)
+      [] fr.f = "ld" -> DoLoad(S, DG, M, fr.s, Head(rest), Tail(rest), cache, memo, loads, acc)
+      [] fr.f = "sm" -> Run(S, DG, M, rest, cache, memo \cup {fr.s}, loads, acc)
       [] fr.f = "lk" ->
            LET k == IF fr.d + 1 > Len(DG[fr.k]) THEN 0 ELSE SlotAt(S, fr.s, DG[fr.k][fr.d + 1]) IN
-           IF k = 0 THEN Run(S, DG, rest, cache, memo, loads, [acc EXCEPT !.res = "notfound"])
+           IF k = 0 THEN Run(S, DG, M, rest, cache, memo, loads, [acc EXCEPT !.res = "notfound"])
            ELSE LET sl == S[fr.s].slots[k] IN
                 IF sl.t = "val"
-                THEN Run(S, DG, rest, cache, memo, loads,
+                THEN Run(S, DG, M, rest, cache, memo, loads,
                          IF sl.name = fr.k THEN [acc EXCEPT !.res = "found", !.link = sl.link] ELSE [acc EXCEPT !.res = "notfound"])
-                ELSE LoadChild(S, DG, sl.idx, Fr("lk", sl.idx, fr.k, fr.d + 1), rest, cache, memo, loads, acc)
+                ELSE LoadChild(S, DG, M, sl.idx, Fr("lk", sl.idx, fr.k, fr.d + 1), rest, cache, memo, loads, acc)
       [] fr.f = "it" ->
-           IF fr.k > Len(S[fr.s].slots) THEN Run(S, DG, rest, cache, memo, loads, acc)
+           IF fr.k > Len(S[fr.s].slots) THEN Run(S, DG, M, rest, cache, memo, loads, acc)
            ELSE LET sl == S[fr.s].slots[fr.k]
                     here == Fr("it", fr.s, fr.k + 1, 0) IN
                 IF sl.t = "val"
-                THEN Run(S, DG, <<here>> \o rest, cache, memo, loads, [acc EXCEPT !.pairs = Append(@, <<sl.name, sl.link>>)])
-                ELSE LoadChild(S, DG, sl.idx, Fr("it", sl.idx, 1, 0), <<here>> \o rest, cache, memo, loads, acc)
+                THEN Run(S, DG, M, <<here>> \o rest, cache, memo, loads, [acc EXCEPT !.pairs = Append(@, <<sl.name, sl.link>>)])
+                ELSE LoadChild(S, DG, M, sl.idx, Fr("it", sl.idx, 1, 0), <<here>> \o rest, cache, memo, loads, acc)
       [] fr.f = "ln" ->
            IF fr.k = 0
-           THEN IF fr.s \in memo THEN Run(S, DG, rest, cache, memo, loads, acc)
-                ELSE Run(S, DG, <<Fr("ln", fr.s, 1, 0)>> \o rest, cache, memo, loads, acc)
+           THEN IF fr.s \in memo THEN Run(S, DG, M, rest, cache, memo, loads, acc)
+                ELSE Run(S, DG, M, <<Fr("ln", fr.s, 1, 0)>> \o rest, cache, memo, loads, acc)
            ELSE IF fr.k > Len(S[fr.s].slots)
                 THEN Park(<<Fr("sm", fr.s, 0, 0)>> \o rest, cache, memo, loads, acc, "length")
                 ELSE LET sl == S[fr.s].slots[fr.k]
                          here == Fr("ln", fr.s, fr.k + 1, 0) IN
-                     IF sl.t = "val" THEN Run(S, DG, <<here>> \o rest, cache, memo, loads, acc)
-                     ELSE LoadChild(S, DG, sl.idx, Fr("ln", sl.idx, 0, 0), <<here>> \o rest, cache, memo, loads, acc)
+                     IF sl.t = "val" THEN Run(S, DG, M, <<here>> \o rest, cache, memo, loads, acc)
+                     ELSE LoadChild(S, DG, M, sl.idx, Fr("ln", sl.idx, 0, 0), <<here>> \o rest, cache, memo, loads, acc)
 
 \* a reader run alone to its end (the warm-up operations and the sequential answers)
-RECURSIVE RunAlone(_, _, _, _, _, _, _)
-RunAlone(S, DG, stk, cache, memo, loads, acc) ==
-  LET r == Run(S, DG, stk, cache, memo, loads, acc) IN
-  IF r.at = "done" THEN r ELSE RunAlone(S, DG, r.stk, r.cache, r.memo, r.loads, r.acc)
+RECURSIVE RunAlone(_, _, _, _, _, _, _, _)
+RunAlone(S, DG, M, stk, cache, memo, loads, acc) ==
+  LET r == Run(S, DG, M, stk, cache, memo, loads, acc) IN
+  IF r.at = "done" THEN r ELSE RunAlone(S, DG, M, r.stk, r.cache, r.memo, r.loads, r.acc)
 
 \* number of entries below shard i
 RECURSIVE CountS(_, _), CountSlots(_, _, _)
@@ -97,7 +120,7 @@ CountSlots(S, i, k) == IF k > Len(S[i].slots) THEN 0
                        ELSE (IF S[i].slots[k].t = "val" THEN 1 ELSE CountS(S, S[i].slots[k].idx)) + CountSlots(S, i, k + 1)
 
 \* the answer an operation has when it runs alone - on any state of the caches
-Alone(S, DG, op) == RunAlone(S, DG, StackOf(op), {}, {}, <<>>, NoAcc).acc
+Alone(S, DG, M, op) == RunAlone(S, DG, M, StackOf(op), {}, {}, <<>>, NoAcc).acc
 \* the answer does not depend on the shared state
-AnswerOK(S, DG, op, acc) == acc = Alone(S, DG, op)
+AnswerOK(S, DG, M, op, acc) == acc = Alone(S, DG, M, op)
 =============================================================================
